@@ -854,9 +854,17 @@ fn copy_exec(h: &RepoHandle, dest_v1: bool, dest_comp: i32, hist: Option<(&str, 
     if !dest_v1 {
         cfg.set_compression = Some(dest_comp);
     }
-    cfg.set_datapack_size = Some(bytesize::ByteSize(if hist.is_some() { 16 } else { 2000 }));
+    cfg.set_datapack_size = Some(bytesize::ByteSize(match hist {
+        // fault sweeps: every blob its own pack / a few blobs per pack / one pack per blob type (written by `finalize()` only)
+        Some(("fault", j)) => [16, 700, 2000, 1 << 20][j % 4],
+        Some(_) => 16,
+        None => 2000,
+    }));
     if matches!(hist, Some(("lose", _))) {
         cfg.set_treepack_size = Some(bytesize::ByteSize(16));
+    }
+    if let Some(("fault", j)) = hist {
+        cfg.set_treepack_size = Some(bytesize::ByteSize([16, 300, 1 << 20][(j / 4) % 3]));
     }
     let Some(hd) = init_repo(&cfg, dest_v1) else { return "err:dest-init".into() };
     let run_sel = |sel: &[&SnapshotFile]| -> Result<(), Box<rustic_core::RusticError>> {
@@ -968,6 +976,7 @@ fn copy_exec(h: &RepoHandle, dest_v1: bool, dest_comp: i32, hist: Option<(&str, 
             }
             return "copied restore=ok".into();
         }
+        Some(("fault", j)) => return copy_fault_sweep(h, &hd, &snaps, &src_digests, j),
         Some(_) => return "bad-op".into(),
     }
     // incremental copy: first only the first half of the snapshots, so that the full copy below finds a destination that already
@@ -998,6 +1007,103 @@ fn copy_exec(h: &RepoHandle, dest_v1: bool, dest_comp: i32, hist: Option<(&str, 
     // a copy target; seed C04-6 transferred data blobs raw in exactly that case)
     if let Some(f) = copy_same_chunker(h, &snaps, &src_digests) {
         return f;
+    }
+    "copied restore=ok".into()
+}
+
+/// `H:fault:<j>` — write faults on the DESTINATION backend (seeded change C12-7: the error of `copier.finalize()` dropped).
+/// A fault-free copy into the fresh destination counts the mutating storage operations `n` of the run (and is verified); then, for
+/// every k < n (all of them up to 40 operations, else every pack write that ends its phase + the index/snapshot writes + a sample),
+/// the copy is replayed on a destination restored to its state before the copy with `fail_only(k)`: the k-th write fails once.
+///   * copy returns Ok  ⇒ the destination must be complete: every copied snapshot is there, reads back identically, check --read-data
+///     clean (`oracle-fail:copy-ok-but-incomplete:<type of the failed file>` — "copy must return Err, or the destination is complete");
+///   * copy returns Err ⇒ every snapshot VISIBLE in the destination reads back identically (`…copy-failed-left-broken-snapshot:<type>`:
+///     nothing refers to blobs that were not stored), and a fault-free re-run of the same copy succeeds and completes the destination
+///     (`…-after-failed-copy`; model: `Props.C12.copy_retry_completes`).
+fn copy_fault_sweep(
+    h: &RepoHandle,
+    hd0: &RepoHandle,
+    snaps: &[SnapshotFile],
+    src_digests: &BTreeMap<String, String>,
+    j: usize,
+) -> String {
+    let before = hd0.be.store();
+    let run = |hd: &RepoHandle| -> Result<(), Box<rustic_core::RusticError>> {
+        let src = open_nc(h)?.to_indexed()?;
+        let dst = open_nc(hd)?.to_indexed_ids()?;
+        src.copy(&dst, snaps.iter())
+    };
+    // every snapshot of `sel` visible in the destination (all of them if `must_exist`) reads back with the source's digest
+    let verify = |hd: &RepoHandle, must_exist: bool, check: bool| -> Option<&'static str> {
+        let Some(dsnaps) = snaps_by_label(hd) else { return Some("dest-snapshots") };
+        let drepo = match open_nc(hd).and_then(Repository::to_indexed) {
+            Ok(r) => r,
+            Err(_) => return Some("dest-index"),
+        };
+        for s in snaps {
+            let want = src_digests.get(&s.id.to_hex().to_string());
+            match dsnaps.iter().find(|d| d.label == s.label) {
+                None if must_exist => return Some("snapshot-missing"),
+                None => {}
+                Some(d) => {
+                    let got = tree_digest(&drepo, d.tree).ok();
+                    if want.is_none() || got.as_ref() != want {
+                        return Some("restore-differs");
+                    }
+                }
+            }
+        }
+        if check && !matches!(crate::dispatch::c05::real_check(hd), Ok(e) if e.is_empty()) {
+            return Some("check-errors");
+        }
+        None
+    };
+    hd0.be.clear_log();
+    if let Err(e) = run(hd0) {
+        return errkind(&e);
+    }
+    if let Some(f) = verify(hd0, true, true) {
+        return format!("oracle-fail:copy-{f}");
+    }
+    let log = hd0.be.log();
+    let n = log.len();
+    let mut ks: Vec<usize> = if n <= 40 {
+        (0..n).collect()
+    } else {
+        let mut v: Vec<usize> = (0..n)
+            .filter(|&k| log[k].tpe != FileType::Pack || k + 1 == n || log[k + 1].tpe != FileType::Pack || log[k + 1].cacheable != log[k].cacheable)
+            .collect();
+        v.extend((0..16).map(|i| (j + i * (n / 16 + 1)) % n));
+        v
+    };
+    ks.sort_unstable();
+    ks.dedup();
+    for k in ks {
+        let hd = RepoHandle { be: MemBackend::from_store(before.clone()), hot: None, key: hd0.key.clone() };
+        hd.be.set_fail_only(Some(k));
+        let res = run(&hd);
+        hd.be.set_fail_only(None);
+        let failed: Option<&'static str> = hd.be.log().iter().find(|o| !o.applied).map(|o| crate::repo::ft_name(o.tpe));
+        let what = failed.unwrap_or("none");
+        match res {
+            Ok(()) => {
+                if let Some(f) = verify(&hd, true, true) {
+                    return format!("oracle-fail:copy-ok-but-incomplete:{what}:{f}");
+                }
+            }
+            Err(_) if failed.is_none() => return "oracle-fail:copy-failed-without-fault".into(),
+            Err(_) => {
+                if let Some(f) = verify(&hd, false, false) {
+                    return format!("oracle-fail:copy-failed-left-broken-snapshot:{what}:{f}");
+                }
+                if let Err(e) = run(&hd) {
+                    return format!("oracle-fail:copy-retry-{}-after-failed-copy:{what}", errkind(&e));
+                }
+                if let Some(f) = verify(&hd, true, true) {
+                    return format!("oracle-fail:copy-{f}-after-failed-copy:{what}");
+                }
+            }
+        }
     }
     "copied restore=ok".into()
 }
@@ -1726,7 +1832,11 @@ pub fn generate(thorough: bool, rng: &mut Rng, ops: &mut Vec<String>, stats: &mu
                     ops.push(finish_line("copy", m.clone(), vec![o.clone()], &h));
                     // the same source into a destination that loses a pack after the copy and is healed by copying again
                     stats.hit("copy.dest-history.lose");
-                    ops.push(finish_line("copy", m, vec![o, format!("H:lose:{}", rng.below(1000))], &h));
+                    ops.push(finish_line("copy", m.clone(), vec![o.clone(), format!("H:lose:{}", rng.below(1000))], &h));
+                    // the same source into a destination whose k-th write fails, for every k (seeded change C12-7)
+                    let j = rng.below(1000);
+                    stats.hit(format!("copy.dest-fault.datapack-{}.treepack-{}", ["1-blob", "700B", "2000B", "one"][j as usize % 4], ["1-blob", "300B", "one"][(j as usize / 4) % 3]));
+                    ops.push(finish_line("copy", m, vec![o, format!("H:fault:{j}")], &h));
                 }
             }
             // three snapshots (variations share blobs); one is forgotten + pruned in the destination and copied again
